@@ -13,6 +13,7 @@ import (
 	_ "crypto/sha256"
 	"crypto/sha512"
 	"fmt"
+	"strings"
 
 	"golang.org/x/crypto/sha3"
 
@@ -474,7 +475,7 @@ func runOne(r *mon.Run, en *entry, c Case) {
 	var success bool
 	var state string
 	var exceeded, panicked bool
-	var pmsg, stack string
+	var pmsg, stack, memMsg string
 	zzverifrt.Arm(budget)
 	func() {
 		defer func() {
@@ -487,7 +488,18 @@ func runOne(r *mon.Run, en *entry, c Case) {
 				pmsg = fmt.Sprint(x)
 			}
 		}()
-		success, state = en.call(b)
+		if b == nil {
+			success, state = en.call(b)
+			return
+		}
+		// the input is a field cut out of a larger buffer: spare capacity, live data (a canary) behind it
+		g := mon.NewGuard(b)
+		success, state = en.call(g.B())
+		if strings.Contains(en.name, "out") {
+			memMsg = g.CheckTail() // the argument is (also) the buffer to fill
+		} else {
+			memMsg = g.Check()
+		}
 	}()
 	ticks := zzverifrt.Ticks()
 	zzverifrt.Arm(0)
@@ -496,6 +508,9 @@ func runOne(r *mon.Run, en *entry, c Case) {
 	r.Max("loop-ticks/"+en.name, ticks)
 	if len(b) > 0 {
 		r.Max("loop-ticks-per-kilobyte-x1000", ticks*1000/int64(len(b)+1000))
+	}
+	if memMsg != "" {
+		r.Violate("untrusted/"+en.name+"/writes-caller-memory", fmt.Sprintf("len=%d fill=%s: %s", len(b), c.Fill, memMsg), c)
 	}
 	docPanic := en.docPanic != nil && en.docPanic(b)
 	validLen := en.valid == nil || in(len(b), en.valid)
